@@ -6,6 +6,7 @@ import Driver.HGel
 import Driver.HRefl
 import Driver.HSnap
 import Clem.Model.Compose
+import Clem.Model.ComposeLog
 import Clem.Model.T2Mon
 
 /-!
@@ -152,16 +153,45 @@ def parseState (j : Json) : R (State Float) := do
     pure ((toStr (← strAt a 0), toStr (← strAt a 1), toStr (← strAt a 2)), ← floatAt a 3))
   pure ⟨w, ← parseVer (fldD j "ver" Json.null), [], [], [], none, 0, false, none, []⟩
 
+/-- the measured clock values of a turn (`clock` of the turn's request entry; absent: all zero) -/
+def parseClock (j : Json) : R (Clock Float) := do
+  let c := fldD j "clock" (jObj [])
+  let f (k : String) : R Float := match fldD c k Json.null with
+    | Json.null => pure 0.0
+    | v => do floatOfBits (← v.getStr?)
+  pure { t1 := ← f "t1", t2 := ← f "t2", t4 := ← f "t4", apply := ← f "apply", total := ← f "total",
+         plan := ← f "plan", rag := ← f "rag", speak := ← f "speak", gelObs := ← f "gelObs",
+         gelTick := ← f "gelTick", gelMaint := ← f "gelMaint",
+         consumedMs := (match fldD c "consumedMs" Json.null with | Json.null => 0 | v => (v.getInt?.toOption.getD 0)),
+         refl := ← f "refl" }
+
+def optStrOf (j : Json) : Option Str :=
+  match j with
+  | Json.str x => some (Driver.HT2.toStr x)
+  | _ => none
+
+/-- the printed constants (`echo` of the request) -/
+def parseLogEnv (echo : Json) : LogEnv :=
+  let sD (k : String) (d : Str) : Str := (optStrOf (fldD echo k Json.null)).getD d
+  { now := optStrOf (fldD echo "logNow" Json.null), nowIsoApply := optStrOf (fldD echo "nowIso" Json.null),
+    ownerScope := sD "owner_scope" (Driver.HT2.toStr "any"), gelMode := sD "gelMode" (Driver.HT2.toStr "additive"),
+    policy := sD "policy" (Driver.HT2.toStr "round_robin"), degreeNorm := sD "degreeNorm" (Driver.HT2.toStr "none"),
+    policyBackend := sD "policyBackend" (Driver.HT2.toStr "rulebased"),
+    dlgTopK := (fldD echo "dlgTopK" (jInt 2)).getInt?.toOption.getD 2,
+    ci := (fldD echo "ci" (Json.bool true)) == Json.bool true }
+
 structure Req where
   w : World Float
   c : Cfg Float
   s : State Float
   ts : List (TurnIn Float × Oracles Float)
   echo : Json
+  ks : List (Clock Float) := []
 
 def parseReq (j : Json) : R Req := do
   pure ⟨← parseWorld (← fld j "world"), ← parseCfg (← fld j "cfg"), ← parseState (← fld j "state"),
-        ← arrMapM (← fldArr j "turns") parseTurn, fldD j "echo" (jObj [])⟩
+        ← arrMapM (← fldArr j "turns") parseTurn, fldD j "echo" (jObj []),
+        ← arrMapM (← fldArr j "turns") parseClock⟩
 
 /-! ### output -/
 
@@ -182,152 +212,12 @@ def jOp : Clem.T3.Op → Json
   | .retrieve o k => jObj [("kind", jStr "RequestRetrieve"), ("owner", jStr (ownerStr o)), ("k", jInt k)]
   | .other => jObj [("kind", jStr "")]
 
-def tierName (n : Nat) : String :=
-  match n with | 0 => "exact_semantic" | 1 => "cluster_semantic" | 2 => "archive" | _ => "?"
-
-/-- `{"turn","agent", …, ("now")}` -/
-def baseRec (echo : Json) (turn : Int) (body : List (String × Json)) : Json :=
-  let now := fldD echo "now" Json.null
-  jObj ([("turn", jInt turn), ("agent", fldD echo "agent" Json.null)] ++ body ++
-    (match now with | Json.null => [] | v => [("now", v)]))
-
-def t1Rec (echo : Json) (turn : Int) (w : World Float) (c : Cfg Float) (o : TurnOut Float) : Json :=
-  let t := o.t1
-  baseRec echo turn [
-    ("pops", jNat t.pops), ("iters", jInt t.iters), ("propagations", jNat t.props),
-    ("radius_cap_hits", jNat t.radiusHits), ("layer_cap_hits", jNat t.layerHits),
-    ("node_budget_hits", jNat t.nodeHits), ("max_delta", jF t.maxDelta),
-    ("graphs_touched", jNat w.graphs.length), ("cache_hits", jNat t.cacheHits),
-    ("cache_misses", jNat t.cacheMisses), ("cache_used", jBool (decide (t.cacheHits > 0))),
-    ("cache_enabled", jBool c.t1.cacheOn)]
-
-def t2Rec (echo : Json) (turn : Int) (c : Cfg Float) (o : TurnOut Float) : Json :=
-  let seq := o.t2.tierSeq
-  let legacyMiss := (seq.filter (fun t => t == 0 || t == 1)).length
-  baseRec echo turn ([
-    ("tier_sequence", jArr (seq.map (fun t => jStr (tierName t)))),
-    ("k_returned", jNat o.t2.retrieved.length), ("k_used", jNat o.t2.used.length),
-    ("k_residual", jNat o.t2.residual.length),
-    ("sim_stats", jObj [("mean", jF o.simMean), ("max", jF o.simMax)]),
-    ("score_stats", jObj [("mean", jF o.scoreMean), ("max", jF o.scoreMax)]),
-    ("owner_scope", fldD echo "owner_scope" Json.null),
-    ("caps", jObj [("residual_cap", jInt c.residualCap)]),
-    ("cache_enabled", jBool c.t2CacheOn), ("cache_used", jBool c.t2CacheOn), ("cache_hits", jNat 0),
-    ("cache_misses", jNat (if c.t2CacheOn then max 1 legacyMiss else legacyMiss)),
-    ("backend", jStr "inmemory"), ("backend_fallback", jBool false),
-    ("hybrid_used", jBool o.t2.hybridUsed)] ++
-    (match o.hinfo with
-     | .absent => []
-     | .kc k => [("hybrid", jObj [("k_considered", jInt k)])]
-     | .full k re m => [("hybrid", jObj [("anchor_top_m", jInt m), ("walk_hops", jInt c.hyb.hops),
-          ("edge_threshold", jF c.hyb.thresh), ("lambda_graph", jF c.hyb.lam),
-          ("damping", jF (if c.hyb.hops == 2 then c.hyb.damping else 0.0)),
-          ("degree_norm", fldD echo "degreeNorm" Json.null), ("k_max", jInt c.hyb.kMax),
-          ("k_considered", jInt k), ("k_reordered", jNat re)])]) ++
-    (if c.orchCacheOn then [("cache_hit", jBool o.orchHit), ("cache_size", jNat o.orchSize)] else []))
-
-def reasonsOf (r : Clem.T4.Result Float) : List String :=
-  (if r.rCooldown then ["COOLDOWN_BLOCKED"] else []) ++ (if r.rNovelty then ["NOVELTY_SPIKE"] else []) ++
-  (if r.rNorm then ["DELTA_NORM_HIGH"] else []) ++ (if r.rChurn then ["CHURN_CAP_HIT"] else [])
-
-def t4Rec (echo : Json) (turn : Int) (c : Cfg Float) (r : Clem.T4.Result Float) : Json :=
-  baseRec echo turn [
-    ("counts", jObj [("input", jNat r.nInput), ("after_cooldown", jNat r.nAfterCd),
-                     ("after_novelty", jNat r.nAfterNov), ("after_l2", jNat r.nAfterL2),
-                     ("approved", jNat r.nApproved), ("dropped_tail", jInt r.droppedTail)]),
-    ("clamps", jObj [("novelty_clamped", jNat r.noveltyClamped), ("l2_scale", jF r.scale)]),
-    ("cooldowns", jObj [("blocked_ops", jNat r.nBlocked)]),
-    ("caps", jObj [("delta_norm_cap_l2", jF c.capL2), ("novelty_cap_per_node", jF c.capNov),
-                   ("churn_cap_edges", jInt c.churn)]),
-    ("approved", jNat r.approved.length), ("rejected", jNat r.rejected.length),
-    ("reasons", jArr ((reasonsOf r).map jStr))]
-
-def applyRec (echo : Json) (turn : Int) (a : Clem.Apply.Out) : Json :=
-  let nowIso := fldD echo "nowIso" Json.null
-  let now := fldD echo "now" Json.null
-  jObj ([("turn", jInt turn), ("agent", fldD echo "agent" Json.null),
-         ("applied", jInt a.applied), ("clamps", jInt a.clamps),
-         ("version_etag", jStr (toString a.version)),
-         ("snapshot", if a.snap.isSome then fldD echo "snapName" Json.null else Json.null),
-         ("cache_invalidations", jNat a.invalidated)] ++
-    (match now, nowIso with
-     | Json.null, _ => []
-     | _, Json.null => []
-     | _, v => [("now", v)]))
-
 def reasonStr : Clem.Sched.YReason → String
   | .wall => "WALL_MS" | .t1Iters => "BUDGET_T1_ITERS" | .t1Pops => "BUDGET_T1_POPS" | .t2K => "BUDGET_T2_K"
   | .t3Ops => "BUDGET_T3_OPS" | .quantum => "QUANTUM_EXCEEDED"
 
 def stageStr : Clem.Sched.Stage → String
   | .T1 => "T1" | .T2 => "T2" | .T3 => "T3" | .T4 => "T4" | .Apply => "Apply"
-
-def optKV (k : String) : Option Int → List (String × Json)
-  | some v => [(k, jInt v)]
-  | none => []
-
-/-- the scheduler.jsonl event of a yielded turn (without the volatile `ms` / `consumed.ms`) -/
-def schedRec (echo : Json) (t : TurnIn Float) (c : Cfg Float) (o : TurnOut Float) : List Json :=
-  match o.yielded, c.sched with
-  | some (st, r), some b =>
-    let consumed : List (String × Json) := match st with
-      | .T1 => [("t1_iters", jInt o.t1.iters), ("t1_pops", jNat o.t1.pops)]
-      | .T2 => [("t2_k", jNat o.t2.used.length)]
-      | .T3 => [("t3_ops", jNat o.planOps0.length)]
-      | _ => []
-    [jObj [("turn", jInt t.turnId), ("slice", jInt (t.sliceIdxPrev + 1)), ("agent", fldD echo "agent" Json.null),
-           ("policy", fldD echo "policy" Json.null), ("reason", jStr (reasonStr r)), ("enforced", jBool true),
-           ("stage_end", jStr (stageStr st)),
-           ("quantum_ms", match b.quantum with | some q => jInt q | none => Json.null),
-           ("wall_ms", match b.wall with | some q => jInt q | none => Json.null),
-           ("budgets", jObj (optKV "t1_pops" b.t1Pops ++ optKV "t1_iters" b.t1Iters ++ optKV "t2_k" b.t2K ++
-                             optKV "t3_ops" b.t3Ops ++ optKV "wall_ms" b.wall)),
-           ("consumed", jObj consumed), ("queued", jArr [])]]
-  | _, _ => []
-
-def turnRecY (echo : Json) (t : TurnIn Float) (w : World Float) (c : Cfg Float) (o : TurnOut Float) : Json :=
-  let t1j := jObj [("pops", jNat o.t1.pops), ("iters", jInt o.t1.iters), ("graphs_touched", jNat w.graphs.length)]
-  let t2j := jObj [("k_returned", jNat o.t2.retrieved.length), ("k_used", jNat o.t2.used.length),
-                   ("cache_hit", jBool o.orchHit)]
-  let t4j := jObj [("approved", jNat (match o.t4 with | some r => r.approved.length | none => 0)),
-                   ("rejected", jNat (match o.t4 with | some r => r.rejected.length | none => 0))]
-  match o.yielded with
-  | some (st, r) =>
-    baseRec echo t.turnId [("t1", t1j),
-      ("t2", match st with | .T1 => jObj [] | _ => t2j),
-      ("t4", match st with | .T4 => t4j | .Apply => t4j | _ => jObj []),
-      ("slice_idx", jInt (t.sliceIdxPrev + 1)), ("yielded", jBool true), ("yield_reason", jStr (reasonStr r))]
-  | none =>
-    -- (`slice_idx` / `yielded: false` of a completed slice are dropped by the identity normalisation of the turn stream)
-    baseRec echo t.turnId [("t1", t1j), ("t2", t2j), ("t4", t4j)]
-
-def turnRec (echo : Json) (turn : Int) (w : World Float) (o : TurnOut Float) : Json :=
-  baseRec echo turn [
-    ("t1", jObj [("pops", jNat o.t1.pops), ("iters", jInt o.t1.iters), ("graphs_touched", jNat w.graphs.length)]),
-    ("t2", jObj [("k_returned", jNat o.t2.retrieved.length), ("k_used", jNat o.t2.used.length),
-                 ("cache_hit", jBool o.orchHit)]),
-    ("t4", jObj [("approved", jNat (match o.t4 with | some r => r.approved.length | none => 0)),
-                 ("rejected", jNat (match o.t4 with | some r => r.rejected.length | none => 0))])]
-
-/-- the gel stream is not an identity log: its records keep `now` (`ctx.now`) -/
-def gelRec (echo : Json) (turn : Int) (body : List (String × Json)) : Json :=
-  jObj ([("turn", jInt turn), ("agent", fldD echo "agent" Json.null)] ++ body ++
-    (match fldD echo "gelNow" Json.null with | Json.null => [] | v => [("now", v)]))
-
-def gelRecs (echo : Json) (turn : Int) (c : Cfg Float) (o : TurnOut Float) : List Json :=
-  (match o.gelObs with
-   | some r => [gelRec echo turn [("event", jStr "observe_retrieval"), ("k_in", jNat r.kIn), ("k_used", jNat r.kUsed),
-                  ("pairs_updated", jNat r.pairsUpdated), ("threshold", jF c.gel.threshold),
-                  ("mode", fldD echo "gelMode" Json.null), ("alpha", jF c.gel.alpha)]]
-   | none => []) ++
-  (match o.gelTick with
-   | some r => [gelRec echo turn [("event", jStr "edge_decay"), ("decayed_edges", jNat r.decayed),
-                  ("dropped_edges", jNat r.dropped), ("half_life_turns", jF c.gel.hl), ("floor", jF c.gel.floor)]]
-   | none => []) ++
-  (match o.gelMaint with
-   | some (ma, mp, sa, sp, pp) => [gelRec echo turn [("merge_attempts", jNat ma), ("merge_applied", jNat mp),
-                  ("split_attempts", jNat sa), ("split_applied", jNat sp), ("promotion_applied", jNat pp)]]
-   | none => [])
 
 def jW (w : List ((Str × Str × Str) × Float)) : Json :=
   jArr (w.map (fun p => jArr [jArr [jS p.1.1, jS p.1.2.1, jS p.1.2.2], jF p.2]))
@@ -337,23 +227,13 @@ def jVer : Clem.Apply.Ver → Json
   | .num n => jStr (toString n)
   | .junk => jStr "junk"
 
-def jTurn (echo : Json) (w : World Float) (c : Cfg Float) (t : TurnIn Float) (o : TurnOut Float) : Json :=
-  let turnEmitted := o.yielded.isSome || !(t.dryRun && c.t4Enabled)
+/-- `emitted`: every record of the turn as it reaches the log files (file name, payload in the ordered wire encoding of
+`Driver.HSnap.encJ`), from `Clem.Compose.emitted` — the model's log stream, not driver code -/
+def jTurn (echo : Json) (w : World Float) (c : Cfg Float) (s : State Float) (t : TurnIn Float) (orc : Oracles Float)
+    (k : Clock Float) (o : TurnOut Float) : Json :=
   jObj [
-    ("logs", jObj [
-      ("t1", jArr [t1Rec echo t.turnId w c o]),
-      ("t2", jArr (if o.t2Ran then [t2Rec echo t.turnId c o] else [])),
-      ("t4", jArr (match o.t4 with | some r => [t4Rec echo t.turnId c r] | none => [])),
-      ("apply", jArr (match o.apply with | some a => [applyRec echo t.turnId a] | none => [])),
-      ("turn", jArr (if turnEmitted then [turnRecY echo t w c o] else [])),
-      ("scheduler", jArr (schedRec echo t c o)),
-      ("t3_reflection", jArr (match o.refl.log with
-        | some l => [jObj [("turn", jInt t.turnId), ("agent", fldD echo "agent" Json.null),
-                           ("summary_len", jNat l.summaryLen), ("ops_written", jNat l.opsWritten),
-                           ("embed", jBool l.embed), ("backend", jStr (Driver.HRefl.ofStr l.backend)),
-                           ("reason", Driver.HRefl.jReason l.reason)]]
-        | none => [])),
-      ("gel", jArr (gelRecs echo t.turnId c o))]),
+    ("emitted", jArr ((emitted (fun x => x == 0.0) w c (parseLogEnv echo) s t orc k).map
+      (fun p => jArr [jS p.1, Driver.HSnap.encJ p.2]))),
     ("gel", Driver.HGel.jState o.state.gel),
     ("line", jS o.line),
     ("qText", jS o.qText),
@@ -401,19 +281,23 @@ def handle (j : Json) : R Json := do
         | Json.null => pure none
         | x => do pure (some (← Driver.HSnap.decJ x))
       pure (bootOf r.c r.s body)
-  let (outs, fin) ← match fldD j "restartAt" Json.null with
+  let pre (s0 : State Float) (outs : List (TurnOut Float)) : List (State Float) :=
+    (s0 :: outs.map (·.state)).take outs.length
+  let (outs, pres, fin) ← match fldD j "restartAt" Json.null with
     | Json.null => do
       -- (turns naming their own agent: several agents on one state; `runTurnsMA = runTurns` when none does)
       let h := runTurnsMA r.w r.c s0 r.ts
-      pure (h.outs, h.state)
+      pure (h.outs, pre s0 h.outs, h.state)
     | kj => do
       let k ← kj.getNat?
       let h1 := runTurns r.w r.c s0 (r.ts.take k)
       let s1 := bootOf r.c r.s h1.state.lastSnap
       let h2 := runTurns r.w r.c s1 (r.ts.drop k)
-      pure (h1.outs ++ h2.outs, h2.state)
+      pure (h1.outs ++ h2.outs, pre s0 h1.outs ++ pre s1 h2.outs, h2.state)
+  let ks := r.ks ++ List.replicate (r.ts.length - r.ks.length) (⟨0.0, 0.0, 0.0, 0.0, 0.0, 0.0, 0.0, 0.0, 0.0, 0.0, 0.0, 0, 0.0⟩ : Clock Float)
   pure (jObj [
-    ("turns", jArr ((r.ts.zip outs).map (fun p => jTurn (echoFor r.echo p.1.1) (wFor r.w p.1.1) r.c p.1.1 p.2))),
+    ("turns", jArr (((r.ts.zip ks).zip (pres.zip outs)).map (fun p =>
+      jTurn (echoFor r.echo p.1.1.1) (wFor r.w p.1.1.1) r.c p.2.1 p.1.1.1 p.1.1.2 p.1.2 p.2.2))),
     ("final", jObj [("w", jW fin.w), ("version", jVer fin.ver)])])
 
 /-! ### monitors on the REAL turn -/
@@ -551,6 +435,23 @@ def handleMon (j : Json) : R Json := do
       s1.w.length == sw.length && (s1.w.zip sw).all (fun p => p.1.1 == p.2.1 && p.1.2.toBits == p.2.2.toBits) &&
       mine.length == es.length && mine.all (fun a => es.any (sameE a)) && es.all (fun a => mine.any (sameE a)) &&
       myNodes.length == nodes.length && myNodes.all (nodes.contains ·) && s1.gelV11))
+  | "log.normalized" | "log.rollup" | "log.order" | "log.t3" =>
+    -- the REAL lines of the turn (file name, ordered wire payload), against the log model's monitors
+    let recs ← arrMapM (← fldArr ob "rawLog") (fun p => do
+      let a ← p.getArr?
+      pure (Driver.HT2.toStr (← strAt a 0), ← Driver.HSnap.decJ (← arrAt a 1)))
+    let weq (a b : Float) : Bool := a.toBits == b.toBits
+    let kindsFinal : List Str ← match fldD ob "kindsFinal" Json.null with
+      | Json.null => pure []
+      | _ => strL ob "kindsFinal"
+    let kinds0 : List Str ← match fldD ob "kinds0" Json.null with
+      | Json.null => pure []
+      | _ => strL ob "kinds0"
+    pure (jBool (match which with
+      | "log.normalized" => monNormalized weq (fun x => x == 0.0) recs
+      | "log.rollup" => monRollup weq recs
+      | "log.t3" => monT3 weq kindsFinal kinds0 r.w.reflFlag recs
+      | _ => monOrder (recs.map (·.1))))
   | "c03.envelope" =>
     match fldD ob "t4" Json.null with
     | Json.null => pure (jBool true)
